@@ -6,10 +6,12 @@
 (* the Latin-1 letter 181 and the separator 59) and every pre-existing     *)
 (* content, after save the file is exactly the join, has no trailing       *)
 (* break, and splitting at CRLF returns the records.  A second save with   *)
-(* a shorter list leaves no residue.                                       *)
+(* a shorter list leaves no residue.  With Edits the caller also edits the *)
+(* record list with the list's own operations (EditList) between saves:    *)
+(* what a save writes is the list as it is at that moment.                 *)
 (***************************************************************************)
 EXTENDS RTFile
-CONSTANTS MaxRecs, MaxLen
+CONSTANTS MaxRecs, MaxLen, Edits
 VARIABLES fs, wl, saved
 
 Alphabet == {65, 59, 181}
@@ -24,6 +26,15 @@ Init == fs \in PreContents /\ wl \in Lists /\ saved = <<>>
 Next == \/ Save(wl) /\ UNCHANGED wl
         \/ wl # <<>> /\ wl' = SubSeq(wl, 1, Len(wl) - 1) /\ UNCHANGED <<fs, saved>>
         \/ wl' = <<>> /\ UNCHANGED <<fs, saved>>
+        \/ /\ Edits
+           /\ \E kind \in {"pop0", "reverse", "insert", "setitem", "delslice"}, i \in 0..MaxRecs, j \in 0..MaxRecs, r \in {<<65>>, <<181, 59>>} :
+                 /\ CASE kind = "pop0" -> wl # <<>>
+                      [] kind = "insert" -> i <= Len(wl) /\ Len(wl) < MaxRecs
+                      [] kind = "setitem" -> i < Len(wl)
+                      [] kind = "delslice" -> i <= j /\ j <= Len(wl)
+                      [] OTHER -> TRUE
+                 /\ wl' = EditList(wl, [kind |-> kind, i |-> i, j |-> j, rec |-> r])
+           /\ UNCHANGED <<fs, saved>>
 
 Written == saved # <<>> \/ fs = <<>>
 InvContent == (saved # <<>>) => fs = FileBytes(saved)
@@ -31,4 +42,10 @@ InvRoundTrip == (saved # <<>>) => SplitCRLF(fs, 1, <<>>) = saved
 InvNoTrailingBreak == (saved # <<>>) => fs[Len(fs)] # LF
 InvLatin1 == Latin1OK(fs)
 InvLemmas == RoundTrip(wl) /\ NoTrailingBreak(wl)
+\* the list operations do what Python's do (lengths; reverse and pop0 are undone by reverse and insert at 0)
+InvEdits == /\ Len(EditList(wl, [kind |-> "reverse", i |-> 0, j |-> 0, rec |-> <<>>])) = Len(wl)
+            /\ EditList(EditList(wl, [kind |-> "reverse", i |-> 0, j |-> 0, rec |-> <<>>]), [kind |-> "reverse", i |-> 0, j |-> 0, rec |-> <<>>]) = wl
+            /\ \A i \in 0..Len(wl) : LET w2 == EditList(wl, [kind |-> "insert", i |-> i, j |-> 0, rec |-> <<65>>]) IN
+                  /\ Len(w2) = Len(wl) + 1 /\ w2[i + 1] = <<65>>
+                  /\ EditList(w2, [kind |-> "delslice", i |-> i, j |-> i + 1, rec |-> <<>>]) = wl
 =============================================================================
